@@ -57,7 +57,7 @@ func (r *Run) viewFindBug() *findBugView {
 		return nil
 	}
 	for _, ret := range returnsOf(fn) {
-		if len(ret.Results) != 5 {
+		if p.nres(ret) != 5 {
 			r.Undecided("findBug#results", ret.Pos(), "findBug no longer returns 5 results")
 			return nil
 		}
@@ -120,6 +120,8 @@ func specC07() *propertySpec {
 			{"C07-R3", "chain: flags.seed → baseSeed → checkTB → doCheck → findBug → reproduce run → returned → printed with -rapid.seed=%d", ruleC07R3},
 			{"C07-R4", "whole-run-determinism: no nondeterminism source in the closure of doCheck except the listed time-dependent constructs; the stream position (which counts draws of earlier test cases) is used only relatively (shared with C11-R3)", func(r *Run) { ruleC07R4(r); ruleStreamPositionRelative(r) }},
 			{"C07-R5", "no-run-history-in-globals: package-level variables (the parsed flags included) are not written after initialisation, so a test case cannot depend on the test cases run before it (shared with C15-R4)", ruleC15R4},
+			{"C07-R6", "seed-determines-the-stream: the per-case PRNG is re-initialised from the seed alone (init writes every state word before the first output), so the first test case under -rapid.seed=S draws what the failing case drew (shared with C04-R2)", ruleC04R2},
+			{"C07-R7", "same-generator-in-the-rerun: the run started with the printed seed draws from generators in their constructed state, the failing test case drew from them after all earlier test cases of its run: the values agree only if no draw stores through or hands out generator-owned storage (shared with C15-R3)", ruleC15R3},
 		},
 	}
 }
@@ -286,24 +288,55 @@ func ruleC07R3(r *Run) {
 		r.Check("doCheck#return-failure.seed", ret.Pos(), p.isResultOf(p.res(ret, 3), fb.Value(), 3),
 			"failure return carries findBug's reported seed", "failure return carries "+p.expr(p.res(ret, 3))+" instead of findBug's reported seed")
 	}
-	// printed
+	// printed: every string built in checkTB that mentions -rapid.seed= continues with doCheck's seed result in
+	// decimal (decided on string shapes: Sprintf, concatenation, strconv and helpers are the same thing)
 	n = 0
-	for _, cs := range p.callsTo(ct, "fmt.Sprintf") {
-		f, ok := constString(p.resolve(cs.Arg(0)))
-		if !ok || !strings.Contains(f, "-rapid.seed=") {
-			continue
+	seedExpr := p.expr(extractOr(dcs[0].Value(), 3))
+	for _, b := range p.body(ct) {
+		for _, in := range b.Instrs {
+			v, ok := in.(ssa.Value)
+			if !ok || !isStringTyped(v) {
+				continue
+			}
+			switch x := in.(type) {
+			case *ssa.BinOp:
+				if x.Op != token.ADD {
+					continue
+				}
+			case *ssa.Call:
+				if p.calleeKey(x.Common()) != "fmt.Sprintf" {
+					continue
+				}
+			default:
+				continue
+			}
+			// maximal: not itself an operand of a longer concatenation / format
+			inner := false
+			if refs := v.Referrers(); refs != nil {
+				for _, u := range *refs {
+					if bo, ok := u.(*ssa.BinOp); ok && bo.Op == token.ADD {
+						inner = true
+					}
+				}
+			}
+			if inner {
+				continue
+			}
+			parts := p.strShape(v)
+			for k, q := range parts {
+				if q.Kind != "lit" || !strings.Contains(q.Lit, "-rapid.seed=") {
+					continue
+				}
+				n++
+				okv := strings.HasSuffix(q.Lit, "-rapid.seed=") && strings.Count(q.Lit, "-rapid.seed=") == 1 && k+1 < len(parts) && parts[k+1].Kind == "int" && parts[k+1].Base == 10 && parts[k+1].Expr == seedExpr
+				got := "<nothing>"
+				if k+1 < len(parts) {
+					got = parts[k+1].Expr
+				}
+				r.Check("checkTB#hint.seed", in.Pos(), okv, "the text after -rapid.seed= is doCheck's seed result in decimal",
+					fmt.Sprintf("the reproduction hint prints %s after -rapid.seed= (expected result #3 of doCheck, in decimal)", got))
+			}
 		}
-		n++
-		vi := verbIndex(f, "-rapid.seed=")
-		args := p.variadicArgs(cs.Arg(1))
-		okv := vi >= 0 && vi < len(args) && args[vi] != nil && p.isResultOf(args[vi], dcs[0].Value(), 3)
-		got := "<none>"
-		if vi >= 0 && vi < len(args) {
-			got = p.expr(args[vi])
-		}
-		r.Check("checkTB#hint.seed", cs.Instr.Pos(), okv && strings.Contains(f, "-rapid.seed=%d"),
-			fmt.Sprintf("format %q prints doCheck's seed result after -rapid.seed=", f),
-			fmt.Sprintf("format %q prints %s after -rapid.seed= (expected result #3 of doCheck, verb %%d)", f, got))
 	}
 	r.Floor("-rapid.seed= hints in checkTB", n, 2)
 }
